@@ -250,7 +250,7 @@ Section Blocks.
     exec arg B_asm s = Returned (assemble (vSign s) (vFirst s) (vDot s) (vLast s) (vExpStr s) (vExpVal s)).
   Proof.
     intro s. unfold B_asm, assemble.
-    set (W1 := While cond1 body1). set (W2 := While cond2 body2).
+    remember (While cond1 body1) as W1 eqn:EW1. remember (While cond2 body2) as W2 eqn:EW2.
     cbn -[Z.ltb Z.sub]. destruct ((0 <? vExpVal s) && (vExpVal s <? 21)) eqn:C1.
     - apply andb_true_iff in C1. destruct C1 as [C1 C2]. rewrite C1, C2.
       subst W1. rewrite exec_stmt_While.
@@ -262,9 +262,9 @@ Section Blocks.
        [ apply andb_true_iff in C3; destruct C3 as [C3 C4]; rewrite C3, C4;
          subst W2; rewrite exec_stmt_While;
          rewrite (wloop2 (Z.to_nat (- vExpVal s - 1)));
-           [|cbn; f_equal; lia|cbn; apply Z.ltb_lt in C4; unfold loop_bound; lia];
+           [|cbn -[Z.sub Z.opp Z.to_nat]; f_equal; lia|apply Z.ltb_lt in C4; unfold loop_bound; lia];
          cbn; rewrite !List.app_nil_r; rewrite <- !List.app_assoc; reflexivity
-       | destruct (vExpVal s <? 0) eqn:D3; simpl in C3; [rewrite C3|]; cbn; reflexivity ]).
+       | destruct (vExpVal s <? 0) eqn:D3; simpl in C3; [rewrite C3|]; cbn; rewrite <- ?List.app_assoc; reflexivity ]).
   Qed.
 End Blocks.
 
